@@ -209,7 +209,8 @@ def replay_row(i, j, inputs):
     dm = {ad: (a[1]['dmem'].get(ad), b[1]['dmem'].get(ad)) for ad in set(a[1]['dmem']) | set(b[1]['dmem']) if a[1]['dmem'].get(ad) != b[1]['dmem'].get(ad)}
     pa, pb = a[1].get('pmem', {}), b[1].get('pmem', {})
     pm = {ad: (pa.get(ad), pb.get(ad)) for ad in set(pa) | set(pb) if pa.get(ad) != pb.get(ad)}
-    return bool(d or dm or pm), {'regs (current, reference)': d, 'dmem (current, reference)': dm, 'program memory (current, reference)': pm}
+    wr = (a[1].get('writes'), b[1].get('writes')) if a[1].get('writes') != b[1].get('writes') else None
+    return bool(d or dm or pm or wr), {'regs (current, reference)': d, 'dmem (current, reference)': dm, 'program memory (current, reference)': pm, 'memory writes (space, address, value) (current, reference)': wr}
 
 
 def match_rows(C, Rf):
